@@ -671,6 +671,14 @@ def load_subscript(it, obj, k):
     if isinstance(obj, Vec):
         if hasattr(k, "as_mask"):
             k = k.as_mask()
+        if isinstance(k, IndexVals) and k.labels is not None:
+            lab = Vec(list(k.labels))                 # an Index object used as an array of labels
+            lab.exact = True
+            if not lab.v:
+                r = Vec([], aligned=obj.aligned)
+                r.exact, r.labels = True, []
+                return r
+            k = lab
         if isinstance(k, bool):
             raise Undecided("bool index")
         if isinstance(k, int) and obj.labels is not None and (obj.aligned or obj.fresh):
@@ -685,6 +693,14 @@ def load_subscript(it, obj, k):
                 raise Raised("IndexError")
         if isinstance(k, Term) and k.is_const():
             return obj.v[int(k.cval())]
+        if isinstance(k, Vec) and k.exact and obj.labels is not None and (obj.aligned or obj.fresh) and all(isinstance(i, int) and not isinstance(i, bool) for i in k.v):
+            # a labelled Series subscripted by an array of labels
+            missing = [i for i in k.v if i not in obj.labels]
+            if missing:
+                raise Raised("KeyError", f"labels {missing} not in index")
+            r = Vec([obj.v[obj.labels.index(i)] for i in k.v], aligned=obj.aligned)
+            r.exact, r.labels = True, list(k.v)
+            return r
         if isinstance(k, Vec) and obj.exact and len(k.v) == len(obj.v) and all(isinstance(m, bool) for m in k.v):
             r = Vec([x for x, m in zip(obj.v, k.v) if m])          # literal elements: filtered for real
             r.exact = True
@@ -814,6 +830,8 @@ def store_subscript(it, obj, k, v, aug=False):
             obj.v = bcast(v, len(obj.v))
         elif isinstance(k, slice) and all(x is None or (isinstance(x, int) and not isinstance(x, bool)) for x in (k.start, k.stop, k.step)):
             pos = list(range(len(obj.v)))[k]
+            if obj.v and all(isinstance(x, bool) for x in obj.v) and isinstance(v, int) and not isinstance(v, bool) and v in (0, 1):
+                v = bool(v)                         # a store into a boolean array converts to bool
             newv = bcast(v, len(pos))
             for i, x in zip(pos, newv):
                 obj.v[i] = x
@@ -867,7 +885,9 @@ def value_attr(it, obj, attr):
             labels = obj.labels
             if labels is None and obj.exact and obj.index == "range":
                 labels = list(range(obj.n))            # literally these rows under the default 0..n-1 index
-            return IndexVals(obj.n, labels)
+            ix = IndexVals(obj.n, labels)
+            ix.kind = obj.index                       # the index kind of the table it belongs to
+            return ix
         if attr == "empty":
             return obj.n == 0
         if attr == "values":
@@ -1447,6 +1467,9 @@ def ext_call(it, dotted, args, kw):
     name = dotted
     if name in ("np.zeros", "np.ones", "np.empty", "np.zeros_like", "np.ones_like"):
         fill = 0.0 if "zeros" in name else 1.0
+        dt = kw.get("dtype", args[1] if len(args) > 1 else None)
+        if isinstance(dt, Module) and dt.name in ("np.bool_", "np.bool") or (isinstance(dt, _TypeProxy) and dt.pytype is bool) or dt == "bool":
+            fill = "zeros" not in name
         a0 = args[0]
         if isinstance(a0, NRows):
             return Vec([fill] * a0.n)
@@ -1585,9 +1608,20 @@ def ext_call(it, dotted, args, kw):
         if name == "pd.Series" and isinstance(ix, Vec) and isinstance(a0, Vec) and len(ix.v) == len(a0.v) and ix.v and all(isinstance(x, str) for x in ix.v) \
                 and len(set(ix.v)) == len(ix.v) and not ix.aligned:
             return LabelSeries(dict(zip(ix.v, a0.v)))           # a lookup table keyed by distinct literal labels
+        if name == "pd.Series" and isinstance(ix, IndexVals) and isinstance(a0, (list, tuple)):
+            a0 = Vec(list(a0))
+            a0.exact = True
         if name == "pd.Series" and isinstance(ix, IndexVals) and ix.labels is not None and isinstance(a0, Vec) and len(a0.v) == len(ix.labels):
-            r = Vec(a0.v, aligned=True)
+            kind = getattr(ix, "kind", "range")
+            r = Vec(a0.v, aligned=(kind if kind != "range" else True))
             r.labels, r.exact = list(ix.labels), True
+            return r
+        if name == "pd.Series" and isinstance(ix, IndexVals) and isinstance(a0, Vec):
+            if ix.labels is None and ix.n != len(a0.v):
+                raise Raised("ValueError", f"Length of values ({len(a0.v)}) does not match length of index ({ix.n})")
+            kind = getattr(ix, "kind", "range")
+            r = Vec(a0.v, aligned=(kind if kind != "range" else True))       # a Series on that table's own index
+            r.exact = a0.exact
             return r
         if isinstance(a0, Vec):
             r = Vec(a0.v, fresh=fresh and not a0.aligned, aligned=a0.aligned and name == "pd.Series")
